@@ -3,9 +3,11 @@
 (src/hkdf.rs, src/pbkdf2.rs, src/scrypt.rs, src/kdf/argon2.rs above the already tied core)  ->  Lean functions in the SHAPE of
 the hand models lean/CxVerif/Impl/Kdf.lean and lean/CxVerif/Impl/Argon2.lean.
 
-Kernel spec module: tools/kernels/glue_kdf.py (`TRANSLATE = ktx_glue_kdf.translate`); generated file
-lean/CxVerif/Extracted/GlueKdf.lean (regenerated from the CURRENT source by tools/extract_tables.py on every run); tie theorems
-`<f>_src_eq_model`: lean/CxVerif/Props/C10/GlueTieKdf.lean (helpers: lean/CxVerif/Proofs/GlueKdf.lean).
+Kernel spec modules (`TRANSLATE = ktx_glue_kdf.translate`), regenerated from the CURRENT source by tools/extract_tables.py on every run:
+  tools/kernels/glue_kdf.py    -> lean/CxVerif/Extracted/GlueKdf.lean    (hkdf, pbkdf2, scrypt);  tie theorems `<f>_src_eq_model`:
+                                  lean/CxVerif/Props/C10/GlueTieKdf.lean   (helpers: Proofs/GlueKdf.lean, Proofs/GlueKdfScrypt.lean)
+  tools/kernels/glue_argon2.py -> lean/CxVerif/Extracted/GlueArgon2.lean (argon2 above the core);  tie theorems:
+                                  lean/CxVerif/Props/C11/GlueTieArgon2.lean (helpers: Proofs/GlueArgon2{Params,Hash,Segment,Process}.lean)
 It reuses the lexer of tools/kernel_translate.py, the parser `PG` of tools/ktx_glue_mac.py (extended here to `PK`: turbofish kept
 in paths, `?`, string literals) and the spec classes / output tree of tools/ktx_glue_mac.py.
 
@@ -51,6 +53,19 @@ One Rust `fn` -> one Lean `def <fn>_src` (+ auxiliary loop defs) : state in, sta
               `size_of::<usize>()` = 8 / `size_of::<u32>()` = 4 (64-bit target), calls of translated functions (by path, by
               receiver type) and of the externs of the module spec (Lean template; which arguments are written; failure).
               By-value builder chains (`Context::<512>::new().update(a).update(b).finalize()`) are calls on temporaries.
+  more (argon2) `Result`-returning builders (`Ok(self)`, `return Err(E)`, `NonZeroU32::new(x).ok_or(E)?` = early `Err` for x = 0,
+              `NonZeroU32::new(lit).unwrap()`), enums (`==`, `as u32` = discriminant), `const NAME: T = <const expr>` re-read from the
+              source, tuple-struct newtypes (`Block(..)`, `.0` erased), `[0u64; N]` / `block[i]` / `block[i] = e` / `block[i] += 1`
+              on word arrays (`Vector UInt64 N`: a literal index is checked at translation time, a dynamic one is `[i]?`), words
+              (`UInt64`) vs numbers (`Nat`): `w >> k`, `w & lit` stay words, arithmetic / casts go through `.toNat`, a number stored
+              into a word array is `UInt64.ofNat`; `vec![x; n].into_boxed_slice()` = `Array.replicate`; `&mut`-returning accessors
+              (kernel kind "lens": `fn m(&mut self, ..) -> &mut T { ..; &mut self.place }` becomes `m_get_src` + `m_set_src`;
+              `*recv.m(args) = e;` and `recv.m(args).as_u8_mut()` as a `&mut` argument go through them); `x ^= y` on a type with a
+              `bitxor_assign` extern; a bool VALUE built from comparisons is `decide (…)`; fn-level `const T: usize` = an explicit
+              leading Lean parameter; per-function arithmetic policy (`KFn(arith=…)`).
+Safety nets (each a TranslateError): a function defined twice in its scope or carrying `#[cfg]`; an attribute or `macro_rules!`
+inside a body; a nested body that re-binds an outer variable the translator did not list as assigned (write log); a later
+argument / operand whose evaluation re-binds a variable mentioned by an earlier one.
 Anything else — closures, iterator chains other than the idioms above, `loop`/`break`/`continue`, `return` inside a loop body,
 a nested-block `let` that shadows an outer variable, unknown functions/methods/fields, arithmetic on a type without a policy —
 raises TranslateError -> reported as a broken extraction (the generated def degenerates and the tie theorem fails); nothing is
@@ -117,8 +132,50 @@ class PK(PG):
         return super().atom()
 
 
+    def block(self):
+        if self.at("#"):
+            raise TranslateError("attribute inside a function body (e.g. `#[cfg]` on a statement) is outside the translated subset")
+        if self.atid("macro_rules"):
+            raise TranslateError("`macro_rules!` inside a function body is outside the translated subset")
+        return super().block()
+
+    def stmt(self):
+        if self.at("#"):
+            raise TranslateError("attribute inside a function body (e.g. `#[cfg]` on a statement) is outside the translated subset")
+        if self.atid("macro_rules"):
+            raise TranslateError("`macro_rules!` inside a function body is outside the translated subset")
+        return super().stmt()
+
+
 def parse_body(text):
+    if re.search(r"#\s*\[", text):
+        raise TranslateError("attribute inside a function body (e.g. `#[cfg]` on a statement) is outside the translated subset")
     return PK(lex(text)).block()
+
+
+def unique_fn(src, fn, scope):
+    """the function must be defined exactly once in its scope (two `#[cfg]` variants are refused rather than one of them picked)"""
+    text = src
+    if scope:
+        m = re.search(scope, text)
+        if not m:
+            raise TranslateError(f"scope {scope!r} not found")
+        j = text.index("{", m.end() - 1) if "{" not in m.group(0) else m.end() - 1
+        depth, i = 1, j + 1
+        while i < len(text) and depth:
+            depth += {"{": 1, "}": -1}.get(text[i], 0)
+            i += 1
+        text = text[j + 1:i - 1]
+    n = 0
+    for m in re.finditer(r"\bfn\s+" + re.escape(fn) + r"\b", text):
+        before = text[:m.start()]
+        if scope:
+            if before.count("{") - before.count("}") == 0:
+                n += 1
+        else:
+            n += 1 if before.count("{") - before.count("}") == 0 else 0
+    if n > 1:
+        raise TranslateError(f"fn {fn} is defined {n} times in its scope")
 
 
 # ===================================================================================================== types
@@ -217,6 +274,8 @@ class IfBind(Node):
 
     def __init__(self, names, tys, cond, a, b, body):
         self.names = names; self.tys = tys; self.cond = cond; self.a = a; self.b = b; self.body = body
+        if NOTE:
+            NOTE[-1].note_write(*names)
 
 
 class Ret(Node):
@@ -240,6 +299,8 @@ class LoopCall(Node):
 
     def __init__(self, pat, call, aux, body):
         self.pat = pat; self.call = call; self.aux = aux; self.body = body
+        if NOTE:
+            NOTE[-1].note_write(pat)
 
 
 def children(n):
@@ -332,9 +393,14 @@ class Render:
 
 # frames: the `pre` lists hold callables body -> Node
 
+NOTE = []     # the active translator (for the write log)
+
+
 class BindF:
     def __init__(self, pat, text):
         self.pat = pat; self.text = text
+        if NOTE:
+            NOTE[-1].note_write(pat)
 
     def __call__(self, body):
         return Bind(self.pat, self.text, body)
@@ -343,6 +409,8 @@ class BindF:
 class LetF:
     def __init__(self, pat, text):
         self.pat = pat; self.text = text
+        if NOTE:
+            NOTE[-1].note_write(pat)
 
     def __call__(self, body):
         return Let(self.pat, self.text, body)
@@ -390,6 +458,7 @@ class Tr:
         self.in_loop = 0
         self.scopes = []
         self.cgen = {}
+        self.wlog = []           # stack of sets: Lean-level re-bindings of variables inside the current loop body / if branch
 
     # ------------------------------------------------------------------------------------------- types
     def const_int(self, e):
@@ -964,7 +1033,9 @@ class Tr:
             a = self.ex(e[2], env, pre, b.ty)
             return a, b
         a = self.ex(e[2], env, pre, want)
+        start = len(pre)
         b = self.ex(e[3], env, pre, a.ty if e[1] not in ("<<", ">>") else None)
+        self.order_check([a.t], pre, start)
         return a, b
 
     @staticmethod
@@ -1441,6 +1512,19 @@ class Tr:
             return self.mod.dicts[callee_fn] + " "
         raise TranslateError(f"generic callee {callee_fn} from a module without a dictionary for it")
 
+    @staticmethod
+    def order_check(earlier_texts, pre, start):
+        """a later operand / argument whose evaluation re-binds a variable that an EARLIER operand's text mentions is refused
+        (the earlier text would observe the later effect)"""
+        bound = set()
+        for fr in pre[start:]:
+            pat = getattr(fr, "pat", None)
+            if isinstance(pat, str):
+                bound |= {x for x in re.findall(r"[A-Za-z_][A-Za-z0-9_']*", pat) if not is_temp(x)}
+        for t in earlier_texts:
+            if bound & set(re.findall(r"[A-Za-z_][A-Za-z0-9_']*", t)):
+                raise TranslateError("an argument re-binds a variable used by an earlier argument (evaluation order)")
+
     def fn_call(self, info, recv, args, env, pre, want=None):
         params = list(info.params)
         texts, outs = [], []
@@ -1449,8 +1533,10 @@ class Tr:
             raise TranslateError(f"arity of {info.spec.fn}")
         cg = []
         for a, (pn, pty, mode) in zip(actuals, params):
+            start = len(pre)
             if mode == "mut":
                 cur, wb, direct = self.out_arg(a, env, pre)
+                self.order_check(texts, pre, start)
                 if not (pty.kind == "abs" and not self.mod.generic):     # instantiated by the caller's dictionary (`Module.dicts`)
                     self.compatible(pty, cur.ty, f"argument {pn}")
                 if pty.kind == "bytes" and pty.n is not None and cur.ty.n is not None and cur.ty.n != pty.n:
@@ -1458,6 +1544,7 @@ class Tr:
                 texts.append(cur.p()); outs.append((wb, direct))
             else:
                 v = self.coerce(self.ex(a, env, pre, pty), pty, f"argument {pn}")
+                self.order_check(texts, pre, start)
                 if pty.kind == "bytes" and pty.n is not None and v.ty.n is not None and v.ty.n != pty.n:
                     raise TranslateError(f"argument {pn}: array length")
                 texts.append(v.p())
@@ -1479,6 +1566,7 @@ class Tr:
                 fmt["self"] = recv[2].p()
         vals = []
         for i, (a, mode) in enumerate(zip(args, ext.args)):
+            start = len(pre)
             if mode == "val":
                 v = self.ex(a, env, pre, ext.argty.get(i))
                 if i in ext.argty:
@@ -1489,6 +1577,7 @@ class Tr:
                     outs.append((wb, direct))
                 else:
                     sets.append((i, wb))
+            self.order_check([fmt.get("self", "")] + [x.t for x in vals], pre, start)
             if i in ext.arg_len:
                 if v.ty.kind != "bytes":
                     raise TranslateError("extern argument is not a byte string")
@@ -1728,7 +1817,20 @@ class Tr:
         env2[name] = vty
         return self.wrap(pre, self.bind_name(name, v, pre, rest(env2)))
 
+    def note_write(self, *names):
+        for fr in self.wlog:
+            for n in names:
+                for x in re.findall(r"[A-Za-z_][A-Za-z0-9_']*", n):
+                    fr.add(x)
+
+    def check_writes(self, frame, env, allowed, what):
+        """every outer variable re-bound inside a nested body must be among the variables that body is known to assign"""
+        bad = [n for n in env if lean_id(n) in frame and n not in allowed and env[n].kind != "uninit"]
+        if bad:
+            raise TranslateError(f"internal: {what} assigns {bad} which the translator did not list as assigned")
+
     def bind_name(self, name, v, pre, body):
+        self.note_write(lean_id(name))
         """`let name := v` — when v is the temporary bound by the last frame, that frame binds `name` directly"""
         ln = lean_id(name)
         if v.at and v.t == ln:
@@ -1850,8 +1952,13 @@ class Tr:
                 got[tag] = env2
                 return Ret(tup([lean_id(n) for n in names]))
             return f
-        na = self.block(a, env, retk("a"), self.no_value)
-        nb = self.block(b, env, retk("b"), self.no_value)
+        self.wlog.append(set())
+        try:
+            na = self.block(a, env, retk("a"), self.no_value)
+            nb = self.block(b, env, retk("b"), self.no_value)
+            self.check_writes(self.wlog[-1], env, set(names), "an `if` branch")
+        finally:
+            self.wlog.pop()
         env2 = dict(env)
         for n in names:
             ta, tb = got["a"][n], got["b"][n]
@@ -1894,12 +2001,16 @@ class Tr:
                     f"  | {step_pat}, {cp} =>\n" + R.go(bnode, 4))
         self.aux.append(aux)
 
-    def loop_body(self, body, benv, rec_text):
+    def loop_body(self, body, benv, rec_text, carried=(), local=()):
         self.in_loop += 1
+        self.wlog.append(set())
         try:
-            return self.block(body, benv, lambda env2: Tail(rec_text), self.no_value)
+            node = self.block(body, benv, lambda env2: Tail(rec_text), self.no_value)
+            self.check_writes(self.wlog[-1], benv, set(carried) | set(local), "a loop body")
+            return node
         finally:
             self.in_loop -= 1
+            self.wlog.pop()
 
     def do_for(self, s, env, rest):
         pat, it, body = s[1], s[2], s[3]
@@ -1954,14 +2065,14 @@ class Tr:
         count = count if re.fullmatch(r"[\w.]+", count) else f"({count})"
         if used:
             rec = f"{aux.name} {self.dict_arg()}{cap_args}rest_ " + " ".join(cl)
-            bnode = self.loop_body(body, benv, rec)
+            bnode = self.loop_body(body, benv, rec, carried, (var,))
             self.emit_loop(aux, captured, env, "List Nat", cl, [env[n].lean for n in carried], "[]", f"{lean_id(var)} :: rest_", bnode,
                            f"`for {var} in lo..hi` of `fn {self.spec.fn}`: the remaining values of `{var}`")
             lst = f"(List.range {hi.p()})" if lo.lit == 0 else f"(List.range' {lo.p()} {count})"
             call = f"{aux.name} {self.dict_arg()}{cap_args}{lst} " + " ".join(cl)
         else:
             rec = f"{aux.name} {self.dict_arg()}{cap_args}cnt " + " ".join(cl)
-            bnode = self.loop_body(body, benv, rec)
+            bnode = self.loop_body(body, benv, rec, carried)
             self.emit_loop(aux, captured, env, "Nat", cl, [env[n].lean for n in carried], "0", "cnt + 1", bnode,
                            f"`for _ in lo..hi` of `fn {self.spec.fn}`: `cnt` iterations")
             call = f"{aux.name} {self.dict_arg()}{cap_args}{count} " + " ".join(cl)
@@ -1999,7 +2110,7 @@ class Tr:
         cl = [lean_id(k_) for k_ in carried]
         cap_args = "".join(lean_id(k_) + " " for k_ in captured)
         rec = f"{aux.name} {self.dict_arg()}{cap_args}rest_ " + " ".join(cl + [f"({acc} ++ {lean_id(var)})"])
-        bnode = self.loop_body(body, benv, rec)
+        bnode = self.loop_body(body, benv, rec, carried, (var,))
         self.emit_loop(aux, captured, env, "List Bytes", cl + [acc], [env[k_].lean for k_ in carried] + ["Bytes"], "[]",
                        f"{lean_id(var)} :: rest_", bnode,
                        f"`for {var} in ….chunks_mut(n)` of `fn {self.spec.fn}`: the remaining chunks; `{acc}` = the chunks done")
@@ -2030,7 +2141,7 @@ class Tr:
         cap_args = "".join(lean_id(k_) + " " for k_ in captured)
         iv = lean_id(ivar)
         rec = f"{aux.name} {self.dict_arg()}{cap_args}rest_ ({iv} + 1) " + " ".join(cl)
-        bnode = self.loop_body(body, benv, rec)
+        bnode = self.loop_body(body, benv, rec, carried, (var, ivar))
         self.emit_loop(aux, captured, env, "List Bytes", [iv] + cl, ["Nat"] + [env[k_].lean for k_ in carried], "[]",
                        f"{lean_id(var)} :: rest_", bnode,
                        f"`for ({ivar}, {var}) in ….chunks(n).enumerate()` of `fn {self.spec.fn}`: the remaining chunks, the running index")
@@ -2096,7 +2207,7 @@ class Tr:
         rec = f"{aux.name} {self.dict_arg()}{cap_args}fuel " + " ".join(cl)
         cpre = []
         c = self.cond(cond_e, benv, cpre)
-        bnode = self.loop_body(body, benv, rec)
+        bnode = self.loop_body(body, benv, rec, carried)
         node = self.wrap(cpre, If(c, bnode, Ret(tup(cl))))
         self.emit_loop(aux, captured, env, "Nat", cl, [env[n].lean for n in carried], "0", "fuel + 1", node,
                        f"`while` loop of `fn {self.spec.fn}` on fuel")
@@ -2123,6 +2234,12 @@ class Tr:
         lean_name = name or sp.lean_name
         mode = getattr(self, "lens_mode", None)
         hdr, body = find_fn(self.src, sp.fn, sp.scope)
+        if not (sp.scope and sp.scope.startswith("fn ")):
+            unique_fn(self.src, sp.fn, sp.scope)
+        attrs = self.src[max(0, self.src.find(hdr) - 200):self.src.find(hdr)]
+        m_attr = re.search(r"((?:#\[[^\]]*\]\s*)+)(?:pub(?:\([^)]*\))?\s+)?$", attrs)
+        if m_attr and re.search(r"#\[\s*cfg", m_attr.group(1)):
+            raise TranslateError(f"fn {sp.fn} carries a `#[cfg]` attribute")
         _, generics, params, ret = parse_sig(hdr)
         env, plist, self.out_vars = {}, [], []
         for g in sp.const_generics:
@@ -2183,10 +2300,18 @@ def translate_lens(spec):
     """a `&mut`-returning accessor `fn m(&mut self, args) -> &mut T { …; &mut self.place }` as a getter and a setter"""
     base = spec.lean_name[:-4] if spec.lean_name.endswith("_src") else spec.lean_name
     gt = Tr(spec); gt.lens_mode = "get"
-    g_text = gt.translate(name=base + "_get_src")
+    NOTE.append(gt)
+    try:
+        g_text = gt.translate(name=base + "_get_src")
+    finally:
+        NOTE.pop()
     g_info = REGISTRY.pop((spec.owner, spec.fn))
     st = Tr(spec); st.lens_mode = "set"
-    s_text = st.translate(name=base + "_set_src")
+    NOTE.append(st)
+    try:
+        s_text = st.translate(name=base + "_set_src")
+    finally:
+        NOTE.pop()
     s_info = REGISTRY[(spec.owner, spec.fn)]
     s_info.params = g_info.params
     s_info.lens = (base + "_get_src", base + "_set_src", g_info.ret, g_info.fallible, s_info.fallible)
@@ -2200,7 +2325,12 @@ def translate(spec):
     if spec.kind == "lens":
         return translate_lens(spec)
     cls = getattr(spec, "tr_class", None) or Tr
-    return cls(spec).translate()
+    tr = cls(spec)
+    NOTE.append(tr)
+    try:
+        return tr.translate()
+    finally:
+        NOTE.pop()
 
 
 def main():
